@@ -49,7 +49,7 @@ fn tree_with(leaf_count: u32, index: u32, secret: &[u8]) -> SecretTree<u32> {
 // every parent node of a 8-leaf tree (indices 1, 3, 5, 7, 9, 11, 13), symbolic secret
 #[kani::proof]
 #[kani::stub(zeroize::optimization_barrier, noop_barrier)]
-#[kani::unwind(34)]
+#[kani::unwind(12)]
 fn c13_consume_node_bounded_8() {
     let p = GhostProvider::new();
     let secret = any_exact::<NH>();
@@ -80,7 +80,7 @@ fn c13_consume_node_bounded_8() {
 // ------------------------------------------------------------ SecretKeyRatchet::new
 #[kani::proof]
 #[kani::stub(zeroize::optimization_barrier, noop_barrier)]
-#[kani::unwind(34)]
+#[kani::unwind(12)]
 fn c13_ratchet_new() {
     let p = GhostProvider::new();
     let secret = any_exact::<NH>();
@@ -101,7 +101,7 @@ fn c13_ratchet_new() {
 
 #[kani::proof]
 #[kani::stub(zeroize::optimization_barrier, noop_barrier)]
-#[kani::unwind(34)]
+#[kani::unwind(12)]
 fn c13_ratchet_new_provider_error() {
     let p = GhostProvider::failing_at(0);
     let secret = any_exact::<NH>();
@@ -124,7 +124,7 @@ fn ratchet(secret: &[u8], generation: u32) -> SecretKeyRatchet {
 // every generation (u32), every length 0..=65535, label of <= 4 symbolic bytes
 #[kani::proof]
 #[kani::stub(zeroize::optimization_barrier, noop_barrier)]
-#[kani::unwind(34)]
+#[kani::unwind(12)]
 fn c13_ratchet_derive_secret_bounded_4() {
     let p = GhostProvider::new();
     let secret = any_exact::<NH>();
@@ -152,7 +152,7 @@ fn c13_ratchet_derive_secret_bounded_4() {
 
 #[kani::proof]
 #[kani::stub(zeroize::optimization_barrier, noop_barrier)]
-#[kani::unwind(34)]
+#[kani::unwind(12)]
 fn c13_ratchet_derive_secret_provider_error() {
     let p = GhostProvider::failing_at(0);
     let secret = any_exact::<NH>();
@@ -167,7 +167,7 @@ fn c13_ratchet_derive_secret_provider_error() {
 // every generation j < 2^32 - 1 (at j = 2^32 - 1 the code's `generation + 1` overflows)
 #[kani::proof]
 #[kani::stub(zeroize::optimization_barrier, noop_barrier)]
-#[kani::unwind(34)]
+#[kani::unwind(12)]
 fn c13_ratchet_next_message_key() {
     let p = GhostProvider::new();
     let secret = any_exact::<NH>();
@@ -197,7 +197,7 @@ fn c13_ratchet_next_message_key() {
 // a provider failure at any of the three derivations is reported as CryptoProviderError
 #[kani::proof]
 #[kani::stub(zeroize::optimization_barrier, noop_barrier)]
-#[kani::unwind(34)]
+#[kani::unwind(12)]
 fn c13_ratchet_next_message_key_provider_error() {
     let at: usize = kani::any();
     kani::assume(at < 3);
@@ -220,7 +220,7 @@ fn c13_ratchet_next_message_key_provider_error() {
 // and the sibling secrets on the way stay in the tree.
 #[kani::proof]
 #[kani::stub(zeroize::optimization_barrier, noop_barrier)]
-#[kani::unwind(34)]
+#[kani::unwind(12)]
 fn c13_tree_first_message_key_bounded_4() {
     let p = GhostProvider::new();
     let enc = any_exact::<NH>();
